@@ -106,10 +106,18 @@ def _terminal_rule(chk, prog):
         chk.analysed(fn)
         preds = status_predicates(fn, prefix)
         if not preds:
-            raise AnalysisBroken("%s: no %s* predicate found" % (fname, prefix))
+            # not written out here: the decision may be delegated to the reference predicate
+            dele = [c for c in fn.calls("janet_fiber_can_resume")] if fname != "janet_fiber_can_resume" else []
+            if not dele:
+                raise AnalysisBroken("%s: no %s* predicate found" % (fname, prefix))
+            for c in dele:
+                sites.append((fname, prefix, role, None, c))
+            continue
         for (e, var) in preds:
             sites.append((fname, prefix, role, setof(e, var, dom), e))
     ref = [s for s in sites if s[0] == "janet_fiber_can_resume"][0][3]
+    # a site that asks janet_fiber_can_resume refuses exactly the finished set
+    sites = [(a, b, c, (ref if d is None else d), e) for (a, b, c, d, e) in sites]
     names = {v: k for k, v in sval.items()}
     chk.extra["finished_statuses"] = sorted(names[v] for v in ref)
     for (fname, prefix, role, st, e) in sites:
@@ -271,6 +279,50 @@ def _statuswrite_rule(chk, prog):
         raise AnalysisBroken("only %d status writes found" % n)
 
 
+# VM fields that janet_try_init saves only so that janet_restore can put them back: the nested context starts from the
+# value they have (reason per field).  Every other saved field describes the boundary itself and gets a new value.
+TRY_SAVE_ONLY = {
+    "gc_suspend": "nested code inherits the collector lock depth; restore undoes what an aborted callee left behind",
+    "fiber": "janet_continue_no_check sets the running fiber itself after the boundary is up",
+}
+
+
+def _boundary_rule(chk, prog):
+    """janet_try_init opens a new signal boundary.  Where signals land (return_reg, signal_buf) and whether non-error
+    signals are turned into errors because a C frame is in the way (coerce_error, set by janet_call) belong to the
+    boundary: a fiber resumed inside a C callback catches its child's signals itself, so it must not inherit the
+    caller's `coerce everything` - otherwise (signal 0 x), yield, or return in a nested fiber become errors."""
+    rule = "C05-BOUNDARY"
+    chk.rule(rule, "janet_try_init gives every boundary field it saves a fresh value (re-pointed at the new state, or reset)")
+    ti = prog.need_func("janet_try_init", "vm.c")
+    chk.analysed(ti)
+    saved, fresh = {}, {}
+    for n in ti.nodes:
+        if n.k == "asg" and n.op == "=" and n.kids[0].k == "mem" and n.kids[0].rec == "JanetTryState":
+            for x in n.kids[1].walk():
+                if x.k == "mem" and x.rec == "JanetVM":
+                    saved[x.field] = n
+        for x in ([n] if n.k in ("asg", "un") else []):
+            t = x.kids[0]
+            if t.k == "mem" and t.rec == "JanetVM":
+                fresh[t.field] = x
+    if "coerce_error" not in saved or "signal_buf" not in saved:
+        raise AnalysisBroken("janet_try_init no longer saves coerce_error / signal_buf: re-derive the boundary fields")
+    order = {id(x): i for i, x in enumerate(ti.nodes)}
+    for f in sorted(saved):
+        chk.instance(rule)
+        if f in TRY_SAVE_ONLY:
+            chk.exception(rule, "janet_vm." + f, TRY_SAVE_ONLY[f])
+        elif f in fresh and (order[id(fresh[f])] > order[id(saved[f])] or fresh[f].k == "un" or any(fresh[f] is y for y in saved[f].walk())):
+            chk.ok(rule, "janet_vm.%s: `%s`" % (f, fresh[f].text()[:50]))
+        else:
+            chk.violation(rule, "vm.c", "janet_try_init", "inherited:" + f, saved[f].loc,
+                          "janet_vm.%s is saved for the enclosing context but the new boundary keeps the caller's value: a fiber resumed "
+                          "inside a C callback (string/replace with a function, PEG cmt, sort comparators ...) inherits janet_call's "
+                          "`coerce every signal to an error`, so its children's yields and user signals arrive as errors" % f)
+    chk.floor(rule, 5, len(saved))
+
+
 def _saverestore_rule(chk, prog):
     rule = "C05-SAVERESTORE"
     chk.rule(rule, "every VM field janet_try_init saves into the JanetTryState is restored from it by janet_restore")
@@ -408,5 +460,6 @@ def run(chk):
     _layout_rule(chk, prog)
     _statuswrite_rule(chk, prog)
     _saverestore_rule(chk, prog)
+    _boundary_rule(chk, prog)
     _envshare_rule(chk, prog)
     _childlink_rule(chk, prog)
